@@ -9,11 +9,11 @@ package controller
 //@ func (*Controller).CommitCertificate
 //@   trusted
 //@   requires[phase] qc != nil && qc.Header != nil && qc.Header.Phase == lib.Phase_PRECOMMIT_VOTE
-//@   requires[ids] qc.Header.NetworkId == c.Config.NetworkID && qc.Header.ChainId == c.Config.ChainId
 //@   requires[height] block != nil && block.BlockHeader != nil && qc.Header.Height == block.BlockHeader.Height && block.BlockHeader.Height == c.FSM.height
 //@   requires[binds] bytes(qc.BlockHash) == headerDigest(block.BlockHeader) && qc.Results != nil && bytes(qc.ResultsHash) == hashOf(pbBytes(qc.Results))
 
 //@ func (*Controller).HandlePeerBlock
-//@   callsite CommitCertificate requires[same] arg1 == msg.BlockAndCertificate
+//@   callsite CommitCertificate requires[same] arg1 == old(msg.BlockAndCertificate)
+//@   callsite CommitCertificate requires[ids] (syncing && qc.Header.Height % CheckpointFrequency != 0) || (qc.Header.NetworkId == c.Config.NetworkID && qc.Header.ChainId == c.Config.ChainId)
 //@   callsite CommitCertificate requires[certified] (syncing && qc.Header.Height % CheckpointFrequency != 0) || (aggVerifies(committeeOf(v.MultiKey), bytes(qc.Signature.Bitmap), signBytesOf(qc), bytes(qc.Signature.Signature)) && signedPowerW(v.ValidatorSet.ValidatorSet, bytes(qc.Signature.Bitmap), false, len(v.ValidatorSet.ValidatorSet)) >= v.MinimumMaj23)
 //@   callsite CommitCertificate requires[committee] (syncing && qc.Header.Height % CheckpointFrequency != 0) || committeeOf(v.MultiKey) == committeeAt(rootChainIdAt(qc.Header.Height), qc.Header.RootHeight)
